@@ -26,7 +26,7 @@ RULE = ('dev: case = (tree, walk setting, script of (step, action)); non-trivial
         'continuation reference')
 ASSUMPTIONS = ['yielded nodes are kept referenced (no id reuse)', 'horizon 6 x (initial + inserted nodes) yields']
 BOUNDS = {'quick': '19 trees x 19 settings x all 1-action scripts (29 actions); 2-action scripts on 4 trees x 4 settings (reduced 12-action menu); '
-                   'search() as consumer on 6 trees',
+                   'send() protocol of walk() (8 parameter settings) and search() (4 patterns x nested x back): every send sequence of a 6-sequence menu at every yield',
           'thorough': '2-action scripts on all trees x 6 settings; 3-action scripts on 2 trees'}
 
 TREES = [
@@ -421,8 +421,123 @@ def explore(fst, ti, si, depth, actions, res, consumer='walk'):
     rec({}, 0, n0, 0)
 
 
+SEND_SEQS = [(False,), (True,), (True, False), (False, True), (False, False, True), (True, True, False)]
+
+
+def _gens(fst, M):
+    """(name, factory(root) -> generator, reference walk kwargs, filter, default descend)"""
+    out = []
+    for allv in (True, False):
+        for rec in (True, False):
+            for back in (False, True):
+                out.append((f'walk(all={allv},recurse={rec},back={back})',
+                            lambda r, allv=allv, rec=rec, back=back: r.walk(allv, recurse=rec, back=back), dict(back=back), allv, None, rec))
+    pats = {'MName': lambda: M.MName(), 'Mexpr': lambda: M.Mexpr(), 'MList|MCall': lambda: M.MOR(M.MList(), M.MCall()), 'Mstmt': lambda: M.Mstmt()}
+    for pn, mk in pats.items():
+        for nested in (False, True):
+            for back in (False, True):
+                out.append((f'search({pn},nested={nested},back={back})',
+                            lambda r, mk=mk, nested=nested, back=back: r.search(mk(), nested, back=back), dict(back=back), True, mk, nested))
+    return out
+
+
+def run_send_protocol(fst, ti, res):
+    """send() protocol of walk() and search(): several values may be sent at one yield, the LAST one decides whether the walk goes
+    below the node just yielded. Reference: a simulation over the undisturbed pre-order (C14 validates that order)."""
+    import fst.match as M
+    src = TREES[ti]
+    for name, mkgen, wkw, allv, mkpat, default_descend in _gens(fst, M):
+        root = fst.FST(src, 'exec')
+        W = list(root.walk(True, **wkw))  # every node, in the order of this direction
+        keep = list(W)
+        if mkpat is None:
+            from .c14 import in_all_false
+            passes = {id(n): (allv is True or in_all_false(n.a)) for n in W}
+        else:
+            pat = mkpat()
+            passes = {id(n): bool(n.match(pat)) for n in W}
+        anc = {}
+        for n in W:
+            a, p = set(), n.parent
+            while p is not None:
+                a.add(id(p))
+                p = p.parent
+            anc[id(n)] = a
+
+        def simulate(decide):
+            """decide(yield index) -> True / False / None (no send)"""
+            out, skipped, forced, k = [], set(), set(), 0
+            for n in W:
+                if anc[id(n)] & skipped:
+                    continue
+                if mkpat is None and anc[id(n)] & forced:  # below a node the consumer sent True for: walked unconditionally
+                    if passes[id(n)]:
+                        out.append(n)
+                        k += 1
+                    continue
+                if not passes[id(n)]:
+                    if mkpat is None and allv is not True:
+                        pass  # filtered out by `all`, still descended into
+                    continue
+                out.append(n)
+                d = decide(k)
+                k += 1
+                descend = default_descend if d is None else d
+                if mkpat is None and n is root and d is None:
+                    descend = True  # recurse=False still walks the children of the start node
+                if not descend:
+                    skipped.add(id(n))
+                elif d is True and mkpat is None:
+                    forced.add(id(n))
+            return out
+        base = simulate(lambda k: None)
+        try:
+            got0 = list(mkgen(fst.FST(src, 'exec')))
+        except Exception as e:  # noqa: BLE001
+            res.fail(f'C15/send/t{ti}/{name}', 'walk-raised:' + e.__class__.__name__, repr(e), {}, {'sendproto': ti})
+            continue
+        if len(got0) != len(base):
+            res.outcomes['send-protocol-reference-not-applicable'] += 1  # e.g. the root is not walked with recurse=False the way the model assumes
+            continue
+        for k in range(len(base)):
+            for seq in SEND_SEQS:
+                cid = f'C15/send/t{ti}/{name}/at{k}:{seq}'
+                res.evals += 1
+                want = simulate(lambda j, k=k, seq=seq: seq[-1] if j == k else None)
+                r2 = fst.FST(src, 'exec')
+                W2 = list(r2.walk(True, **wkw))
+                index = {id(n): i for i, n in enumerate(W2)}
+                gen = mkgen(r2)
+                got = []
+                try:
+                    j = 0
+                    for item in gen:
+                        node = item.matched if hasattr(item, 'matched') else item
+                        got.append(index.get(id(node), -1))
+                        res.transitions += 1
+                        if j == k:
+                            for v in seq:
+                                gen.send(v)
+                        j += 1
+                        if j > 4 * len(W) + 10:
+                            break
+                except Exception as e:  # noqa: BLE001
+                    res.fail(cid, 'walk-raised:' + e.__class__.__name__, f'tree={src!r}\n{e!r}', {'gen': name}, {'sendproto': ti})
+                    continue
+                res.traces += 1
+                wi = {id(n): i for i, n in enumerate(W)}
+                want_idx = [wi[id(n)] for n in want]
+                if got != want_idx:
+                    res.fail(cid, 'send-not-honoured', f'tree={src!r}\n{name}: values {seq} sent at yield {k}\ngot ={got}\nwant={want_idx} (indices into the undisturbed order)',
+                             {'gen': name}, {'sendproto': ti})
+                else:
+                    res.nontriv('send', ti, name, k, seq)
+                    res.outcomes['send-ok'] += 1
+
+
 def shards(tier):
     out = [{'tree': t, 'setting': s, 'depth': 1} for t in range(len(TREES)) for s in range(len(SETTINGS))]
+    out += [{'sendproto': t} for t in range(len(TREES))]
     d2t = (0, 3, 4, 7) if tier == 'quick' else range(len(TREES))
     d2s = (0, 1, 4, 7) if tier == 'quick' else (0, 1, 2, 4, 7, 10)
     out += [{'tree': t, 'setting': s, 'depth': 2, 'lite': True} for t in d2t for s in d2s]
@@ -433,12 +548,18 @@ def shards(tier):
 
 def run_shard(desc, tier, res):
     import fst
+    if 'sendproto' in desc:
+        run_send_protocol(fst, desc['sendproto'], res)
+        return
     explore(fst, desc['tree'], desc['setting'], desc['depth'], ACTIONS_LITE if desc.get('lite') else ACTIONS, res)
     res.sample({'tree': TREES[desc['tree']], 'setting': {k: str(v) for k, v in SETTINGS[desc['setting']].items()}, 'depth': desc['depth']})
 
 
 def replay(rep, res):
     import fst
+    if 'sendproto' in rep:
+        run_send_protocol(fst, rep['sendproto'], res)
+        return
     script = {int(k): tuple(a) for k, a in rep['script']}
     r = run_script(fst, rep['tree'], rep['setting'], script, res, rep.get('consumer', 'walk'))
     print('result', r)
